@@ -314,6 +314,16 @@ def mergeEntryStep (now : Int) (tombs : List Tomb) (s : St) (path : List Nat) (i
         pure ({ s with root := updatePath s.root path (fun g => g.setChildren (g.children ++ [Node.entry oe])) }.ev
                 .entryCreated oe.d.uuid)
 
+/-- where the destination keeps the group a path designates by its last element, now: a nested `merge_group` may have moved a
+    group above it (repair of F19: `merge_group` looks the current group's place up again before each child group) -/
+def refreshPath (root : Node) (path : List Nat) : List Nat :=
+  match path.getLast? with
+  | none => path
+  | some cur =>
+    match findLoc root cur with
+    | some d => d ++ [cur]
+    | none => path
+
 mutual
   /-- `merge_group(path, g, inDeleted)`.  After the repair of F2 the path used for lookups in the
       destination is the destination's own location of the group whenever the group exists there. -/
@@ -382,7 +392,7 @@ mutual
               let root' := updatePath s.root path (fun p => p.setChildren (p.children ++ [Node.group ou oc ot []]))
               let s := { s with root := root' }
               mergeGroup now tombs s newLoc og inDeleted
-      mergeSubgroups now tombs s path inDeleted rest
+      mergeSubgroups now tombs s (refreshPath s.root path) inDeleted rest
 end
 
 /-! ### deletions -/
